@@ -48,8 +48,15 @@ PolAclsQuick == {<<>>, <<[allow |-> FALSE, p |-> P(2, ASb, "hexl", 2, 1, 0)], [a
                  <<[allow |-> TRUE, p |-> P(1, WildAS, "dec", 0, 0, 0)], [allow |-> FALSE, p |-> AnyHop]>>}
 PolScnsQuick == {[fam |-> "pol", scn |-> [acl |-> a, seq |-> s, opts |-> o]] : a \in PolAclsQuick, s \in PolSeqs, o \in PolOptsQuick}
 
+\* thorough: ACLs with three specific entries (over five predicates) and policies with three options
+AclPreds3 == {P(1, WildAS, "dec", 0, 0, 0), P(0, ASb, "hexl", 1, 0, 0), P(1, ASa, "dec", 2, 1, 0),
+              P(2, ASb, "hexl", 3, 1, 2), P(2, ASa, "dec", 3, 0, 2)}
+AclScns3 == {[fam |-> "acl", scn |-> [acl |-> a]] : a \in {x \in AclsOver(AclPreds3, 3) : Len(x) = 4}}
+PolOpts3 == {<<x, y, z>> : x \in OptSetQuick, y \in OptSetQuick, z \in OptSetQuick}
+PolScns3 == {[fam |-> "pol", scn |-> [acl |-> a, seq |-> s, opts |-> o]] : a \in PolAclsQuick, s \in PolSeqs, o \in PolOpts3}
+
 DirectedQuick == ProbeScns(GenProbePredsQuick) \cup AclScns(1) \cup PolScnsQuick
-DirectedThorough == ProbeScns(GenProbePredsThorough) \cup AclScns(2) \cup PolScns
+DirectedThorough == ProbeScns(GenProbePredsThorough) \cup AclScns(2) \cup PolScns \cup AclScns3 \cup PolScns3
 
 \* path sets for the driver, printed once at start-up by the Gen configs
 PathSets(u) == /\ PrintT(<<"PATHS", "pred", ToJson(SetToSeq(GenProbePaths))>>)
